@@ -171,6 +171,18 @@ func firstZeroCut(sl *ssa.Slice, temp ssa.Value) bool {
 	return true
 }
 
+// eventOf: the event of instruction ins on path p.
+func eventOf(p *paths.Path, ins ssa.Instruction) (paths.Event, bool) {
+	for _, e := range p.Events {
+		if e.Kind == paths.EvInstr && e.Instr == ins {
+			return e, true
+		}
+	}
+	return paths.Event{}, false
+}
+
+func resolvedSliceBase(sl *ssa.Slice, _ ssa.Value) *ssa.Slice { return sl }
+
 func strShape(v ssa.Value) []strPart {
 	switch x := v.(type) {
 	case *ssa.Parameter:
@@ -540,19 +552,41 @@ func shapeRules(c *core.Ctx) {
 		}
 		n := fn.Params[1]
 		reads := callsTo(fn, "bytes", "Buffer.Read")
+		if len(reads) == 0 && name != "ReadCStringN" {
+			// the read lives in an unexported helper of the reader: decided by the all-paths rule below (fresh buffer of n octets
+			// included)
+			c.OK(rule, key, pos, "reads through a helper: see "+key+"#paths")
+			continue
+		}
 		ok := len(reads) == 1
-		var temp *ssa.MakeSlice
+		var temp ssa.Value
 		if ok {
-			temp, ok = reads[0].Call.Args[1].(*ssa.MakeSlice)
-			if ok {
-				ok = temp.Len == ssa.Value(n)
+			ms, isMS := reads[0].Call.Args[1].(*ssa.MakeSlice)
+			ok = isMS && ms.Len == ssa.Value(n)
+			temp = ms
+		} else if len(reads) == 0 {
+			// the octets come from an unexported helper of the reader called with n (judged by the all-paths rule): the cut is
+			// checked on the helper's first result
+			for _, b := range fn.Blocks {
+				for _, ins := range b.Instrs {
+					call, isC := ins.(*ssa.Call)
+					if !isC || call.Call.StaticCallee() == nil {
+						continue
+					}
+					cal := call.Call.StaticCallee()
+					if cal.Pkg == fn.Pkg && cal.Signature.Recv() != nil && cal.Object() != nil && !cal.Object().Exported() && len(call.Call.Args) == 2 && call.Call.Args[1] == ssa.Value(n) {
+						if ex := extractOf(call, 0); ex != nil {
+							temp, ok = ex, true
+						}
+					}
+				}
 			}
 		}
 		trim := callsTo(fn, "bytes", "IndexByte")
 		detail := "reads exactly n octets into a fresh buffer"
 		if name == "ReadCStringN" {
 			cut := false
-			if ok && len(trim) == 1 && trim[0].Call.Args[0] == ssa.Value(temp) {
+			if ok && len(trim) == 1 && trim[0].Call.Args[0] == temp {
 				if z, isC := constInt(trim[0].Call.Args[1]); isC && z == 0 {
 					// branch idx >= 0 (canonical) whose true side slices temp[:idx]
 					for _, r := range *trim[0].Referrers() {
@@ -566,7 +600,7 @@ func shapeRules(c *core.Ctx) {
 						}
 						if (bo.Op == token.GTR && k == -1) || (bo.Op == token.GEQ && k == 0) || (bo.Op == token.NEQ && k == -1) {
 							for _, rr := range *trim[0].Referrers() {
-								if sl, isS := rr.(*ssa.Slice); isS && sl.X == ssa.Value(temp) && sl.Low == nil && sl.High == ssa.Value(trim[0]) {
+								if sl, isS := rr.(*ssa.Slice); isS && sl.X == temp && sl.Low == nil && sl.High == ssa.Value(trim[0]) {
 									cut = true
 								}
 							}
@@ -579,7 +613,7 @@ func shapeRules(c *core.Ctx) {
 				n := 0
 				for _, b := range fn.Blocks {
 					for _, ins := range b.Instrs {
-						if sl, isS := ins.(*ssa.Slice); isS && sl.X == ssa.Value(temp) {
+						if sl, isS := ins.(*ssa.Slice); isS && sl.X == temp {
 							n++
 							cut = firstZeroCut(sl, temp)
 						}
@@ -607,9 +641,9 @@ func shapeRules(c *core.Ctx) {
 		}
 		n := fn.Params[1]
 		inline := func(call *ssa.Call, callee *ssa.Function) bool {
-			return callee.Pkg == fn.Pkg && callee.Signature.Recv() != nil && len(callee.Blocks) > 0 && callee.Name() == "short"
+			return callee.Pkg == fn.Pkg && callee.Signature.Recv() != nil && len(callee.Blocks) > 0 && callee.Object() != nil && !callee.Object().Exported()
 		}
-		ps, err := paths.Enumerate(fn, paths.Config{Inline: inline, MaxDepth: 1, SkipPureLoops: true})
+		ps, err := paths.Enumerate(fn, paths.Config{Inline: inline, MaxDepth: 2, SkipPureLoops: true})
 		if err != nil {
 			c.Unknown(rule, key, pos, "path enumeration failed: "+err.Error())
 			continue
@@ -647,7 +681,7 @@ func shapeRules(c *core.Ctx) {
 					first = false
 					if bo, ok := e.Cond.(*ssa.BinOp); ok && read != nil && (bo.Op == token.NEQ || bo.Op == token.EQL) {
 						for _, pair := range [][2]ssa.Value{{bo.X, bo.Y}, {bo.Y, bo.X}} {
-							if ex, isE := pair[0].(*ssa.Extract); isE && ex.Tuple == ssa.Value(read) && ex.Index == 0 && pair[1] == ssa.Value(n) {
+							if ex, isE := pair[0].(*ssa.Extract); isE && ex.Tuple == ssa.Value(read) && ex.Index == 0 && e.Resolve(pair[1]) == ssa.Value(n) {
 								if (bo.Op == token.NEQ) != e.Taken {
 									cntOK = true
 								}
@@ -676,14 +710,14 @@ func shapeRules(c *core.Ctx) {
 				}
 				onPath := false
 				for _, e := range p.Events {
-					if e.Kind != paths.EvBranch || e.Depth != 0 {
+					if e.Kind != paths.EvBranch {
 						continue
 					}
 					bo, ok := e.Cond.(*ssa.BinOp)
 					if !ok {
 						continue
 					}
-					x, y, op := bo.X, bo.Y, bo.Op
+					x, y, op := e.Resolve(bo.X), e.Resolve(bo.Y), bo.Op
 					if y == ssa.Value(n) {
 						x, y = y, x
 						op = map[token.Token]token.Token{token.LSS: token.GTR, token.GTR: token.LSS, token.LEQ: token.GEQ, token.GEQ: token.LEQ, token.EQL: token.EQL, token.NEQ: token.NEQ}[op]
@@ -714,15 +748,25 @@ func shapeRules(c *core.Ctx) {
 				problems = append(problems, "a path that read from the buffer reaches the result without `read count == n` having been established")
 			}
 			temp := read.Call.Args[1]
+			lastEv := p.Events[len(p.Events)-1]
+			// the buffer read into is a fresh allocation of exactly n octets
+			if ms, isMS := temp.(*ssa.MakeSlice); !isMS || lastEv.Resolve(ms.Len) != ssa.Value(n) {
+				if !isMS {
+					problems = append(problems, "the octets are not read into a freshly allocated buffer")
+				} else if readEv, okE := eventOf(p, read); !okE || readEv.Resolve(ms.Len) != ssa.Value(n) {
+					problems = append(problems, "the buffer read into is not n octets long")
+				}
+			}
 			v := r
 			if cv, ok := v.(*ssa.Convert); ok {
 				v = cv.X
 			}
-			if len(p.Events) > 0 {
-				v = p.Events[len(p.Events)-1].Resolve(v)
-			}
+			v = lastEv.Resolve(v)
 			okRes := v == temp
-			if sl, ok := v.(*ssa.Slice); ok && name == "ReadCStringN" && sl.X == temp && sl.Low == nil {
+			if sl, ok := v.(*ssa.Slice); ok && name == "ReadCStringN" && lastEv.Resolve(sl.X) == temp && sl.Low == nil {
+				sl = resolvedSliceBase(sl, temp)
+			}
+			if sl, ok := v.(*ssa.Slice); ok && name == "ReadCStringN" && (sl.X == temp || lastEv.Resolve(sl.X) == temp) && sl.Low == nil {
 				if call, ok := sl.High.(*ssa.Call); ok && calleeName(call) == "bytes.IndexByte" {
 					okRes = true
 				}
